@@ -105,6 +105,8 @@ def compare_items(want_items, got_items, upto=None) -> str | None:
         name, k, v, rk, rv = got_items[i]
         if name != w.name:
             return f"item #{i} is {name}, expected {w.name}"
+        if getattr(w, "unjudged", False):
+            continue
         if not same_value(w.value, v, tolerant=w.calibrated, scale=w.scale):
             return f"{name}: value {v!r} ({k}) != expected {w.value!r} ({kind_of(w.value)})"
         if not same_value(w.raw, rv):
